@@ -59,6 +59,13 @@
  * with a misplaced element is explored further and is reported when a
  * minimum is wrong or a handle is stale.
  *
+ * A create / init / add that reports failure although no allocation was
+ * refused is a violation (C13:<kind>:init-failed|create-failed|add-failed:<op>),
+ * also while a state is being rebuilt (C13:<kind>:init-failed|append-failed:rebuild:
+ * the pointer list's append is library code); the edge is then abandoned.
+ * Engine errors are left for impossible operation codes, bad replay records,
+ * sizes the oracle has already excluded, and the non-vacuity guards.
+ *
  * Not covered: more than N elements ("thousands of entries" is out of reach;
  * N = 12 includes every sift path of depth <= 3), allocation failure (C14),
  * comparison functions that are not total preorders.
@@ -95,6 +102,7 @@ static struct cfg cur;
 static struct esh S;
 static int replaying;		/* executing one edge verbosely */
 static int edge_failed;
+static int rebuilding;		/* inside hp_restore / tq_restore: a failure is reported as "...:rebuild", whatever the edge's operation */
 static char casebuf[200];
 static uint32_t curop; static const uint8_t * curstate; static size_t curstatelen;
 static char prefix[32];		/* counter prefix */
@@ -112,7 +120,7 @@ void * __wrap_realloc(void * p, size_t n){ return oom ? NULL : __real_realloc(p,
 #define OPA(op) (((op) >> 12) & 0xfff)
 #define OPB(op) ((op) & 0xfff)
 
-static const char * const opkind[] = {"?", "init", "create", "add", "deletemin", "delete", "increase", "decrease", "increasemin", "getptr"};
+static const char * const opkind[] = {"?", "init", "create", "add", "deletemin", "delete", "increase", "decrease", "increasemin", "getptr", "add-oom"};	/* indexed by OP_* (OP_ADD_OOM is the last) */
 static const char *
 opname(uint32_t op, char * b, size_t n)
 {
@@ -141,7 +149,7 @@ fail(const char * rule, const char * fmt, ...)
 	edge_failed = 1;
 	if (esh_locating(&S)) return;
 	va_start(ap, fmt); vsnprintf(msg, sizeof(msg), fmt, ap); va_end(ap);
-	snprintf(sig, sizeof(sig), "C13:%s:%s:%s", cur.kind, rule, opkind[OPK(curop)]);
+	snprintf(sig, sizeof(sig), "C13:%s:%s:%s", cur.kind, rule, rebuilding ? "rebuild" : opkind[OPK(curop)]);
 	if (replaying) { printf("  VIOLATION %s: %s\n", sig, msg); return; }
 	if (OPK(curop) == OP_INIT || OPK(curop) == OP_CREATE) snprintf(hist, sizeof(hist), "[\"%s\"]", opname(curop, nb, sizeof(nb)));
 	else esh_history_json(&S, esh_cur(&S), curop, opname, hist, sizeof(hist));
@@ -202,13 +210,20 @@ hp_restore(const uint8_t * s, struct el ** els)
 {
 	struct ptrheap * H = ptrheap_init(hp_cmp, cur.cb ? hp_setrc : NULL, &hp_cookie);
 	int i;
-	if (H == NULL) vf_engine_error("ptrheap_init failed");
-	npool = 0;
+	/*
+	 * No allocation is refused while a state is rebuilt, so a failure here is
+	 * the library's (ptrheap_init / the pointer list's append): a violation of
+	 * the edge being executed, which is then abandoned (edge_failed is set;
+	 * the caller gets NULL or the partly rebuilt heap, to be freed only).
+	 */
+	npool = 0; rebuilding = 1;
+	if (H == NULL) { fail("init-failed", "ptrheap_init returned NULL while rebuilding the state although no allocation was refused"); rebuilding = 0; return NULL; }
 	for (i = 0; i < s[0]; i++) {
 		els[i] = newel(s[1 + i]);
-		if (verif_ptrheap_place(H, els[i])) vf_engine_error("verif_ptrheap_place failed");
+		if (verif_ptrheap_place(H, els[i])) { els[i]->alive = 0; fail("append-failed", "appending element %d of %d to the heap's pointer list failed while rebuilding the state although no allocation was refused", i, s[0]); break; }
 		els[i]->rc = (size_t)i;
 	}
+	rebuilding = 0;
 	return H;
 }
 static void
@@ -273,7 +288,7 @@ hp_edge(const uint8_t * s, size_t len, uint32_t op)
 	setcase(s, len, op);
 	if (OPK(op) == OP_INIT) {
 		npool = 0;
-		if ((H = ptrheap_init(hp_cmp, cur.cb ? hp_setrc : NULL, &hp_cookie)) == NULL) vf_engine_error("ptrheap_init failed");
+		if ((H = ptrheap_init(hp_cmp, cur.cb ? hp_setrc : NULL, &hp_cookie)) == NULL) { fail("init-failed", "ptrheap_init returned NULL although no allocation was refused"); return NULL; }
 		hp_check(H);
 		return H;
 	}
@@ -281,14 +296,15 @@ hp_edge(const uint8_t * s, size_t len, uint32_t op)
 		void * ptrs[MAXN]; unsigned x = b;
 		npool = 0;
 		for (i = 0; i < (int)a; i++) { ptrs[i] = newel((int)(x % (unsigned)cur.nkeys)); x /= (unsigned)cur.nkeys; }
-		if ((H = ptrheap_create(hp_cmp, cur.cb ? hp_setrc : NULL, &hp_cookie, a, ptrs)) == NULL) vf_engine_error("ptrheap_create failed");
+		if ((H = ptrheap_create(hp_cmp, cur.cb ? hp_setrc : NULL, &hp_cookie, a, ptrs)) == NULL) { fail("create-failed", "ptrheap_create from %u pointers returned NULL although no allocation was refused", a); return NULL; }
 		hp_check(H);
 		return H;
 	}
 	H = hp_restore(s, els);
+	if (edge_failed) return H;	/* the state could not be rebuilt (reported): no operation is run */
 	if (replaying) { printf("   before:\n"); hp_print(H); }
 	switch (OPK(op)) {
-	case OP_ADD: { struct el * e = newel((int)a); if (ptrheap_add(H, e)) vf_engine_error("ptrheap_add failed (no allocation failure is injected here)"); break; }
+	case OP_ADD: { struct el * e = newel((int)a); if (ptrheap_add(H, e)) { e->alive = 0; fail("add-failed", "ptrheap_add to a heap of %d elements reported failure although no allocation was refused", s[0]); } break; }
 	case OP_ADD_OOM: {
 		/*
 		 * An add that may need to grow the array while every allocation is
@@ -301,7 +317,7 @@ hp_edge(const uint8_t * s, size_t len, uint32_t op)
 		oom = 1; rc = ptrheap_add(H, e); oom = 0;
 		if (rc != 0) {
 			if (verif_ptrheap_n(H) != nbefore) { fail("failed-add", "ptrheap_add reported failure but the heap holds %zu elements instead of %zu", verif_ptrheap_n(H), nbefore); break; }
-			if (ptrheap_add(H, e)) vf_engine_error("ptrheap_add failed with a healthy allocator");
+			if (ptrheap_add(H, e)) { e->alive = 0; fail("add-failed", "ptrheap_add to a heap of %d elements reported failure again when retried with a healthy allocator", s[0]); }
 		}
 		break; }
 	case OP_DELETEMIN: {
@@ -344,7 +360,7 @@ hp_succ(struct es * E, const uint8_t * s, size_t len, void * ctx)
 	for (i = 0; i < nops; i++) {
 		H = hp_edge(s, len, ops[i]);
 		if (!edge_failed) hp_emit(H, ops[i], 0); else S.E.transitions++;
-		ptrheap_free(H);
+		if (H != NULL) ptrheap_free(H);
 		if (esh_located(&S)) return;
 	}
 }
@@ -352,13 +368,13 @@ static void
 hp_initials(void)
 {
 	int n, c, tot; struct ptrheap * H;
-	H = hp_edge(NULL, 0, OPC(OP_INIT, 0, 0)); if (!edge_failed) hp_emit(H, OPC(OP_INIT, 0, 0), 1); ptrheap_free(H); S.E.transitions++;
+	H = hp_edge(NULL, 0, OPC(OP_INIT, 0, 0)); if (!edge_failed) hp_emit(H, OPC(OP_INIT, 0, 0), 1); if (H != NULL) ptrheap_free(H); S.E.transitions++;
 	for (n = 0; n <= cur.cmax; n++) {
 		for (tot = 1, c = 0; c < n; c++) tot *= cur.nkeys;
 		for (c = 0; c < tot; c++) {
 			H = hp_edge(NULL, 0, OPC(OP_CREATE, n, c));
 			if (!edge_failed) hp_emit(H, OPC(OP_CREATE, n, c), 1);
-			ptrheap_free(H); S.E.transitions++;
+			if (H != NULL) ptrheap_free(H); S.E.transitions++;
 			if (esh_located(&S)) return;
 		}
 	}
@@ -375,13 +391,15 @@ static struct timerqueue *
 tq_restore(const uint8_t * s)
 {
 	struct timerqueue * Q = timerqueue_init(); int i;
-	if (Q == NULL) vf_engine_error("timerqueue_init failed");
-	ntpool = 0;
+	/* as in hp_restore: a failure while rebuilding is the library's, reported against the edge, which is abandoned */
+	ntpool = 0; rebuilding = 1;
+	if (Q == NULL) { fail("init-failed", "timerqueue_init returned NULL while rebuilding the state although no allocation was refused"); rebuilding = 0; return NULL; }
 	for (i = 0; i < s[0]; i++) {
 		struct tent * e = &tpool[ntpool++];
 		e->t = s[1 + i]; e->alive = 1;
-		if ((e->handle = verif_tq_place(Q, &TIMES[e->t], e)) == NULL) vf_engine_error("verif_tq_place failed");
+		if ((e->handle = verif_tq_place(Q, &TIMES[e->t], e)) == NULL) { e->alive = 0; fail("append-failed", "appending record %d of %d to the queue's heap failed while rebuilding the state although no allocation was refused", i, s[0]); break; }
 	}
+	rebuilding = 0;
 	return Q;
 }
 static void
@@ -438,14 +456,15 @@ tq_edge(const uint8_t * s, size_t len, uint32_t op)
 	setcase(s, len, op);
 	if (OPK(op) == OP_INIT) {
 		ntpool = 0;
-		if ((Q = timerqueue_init()) == NULL) vf_engine_error("timerqueue_init failed");
+		if ((Q = timerqueue_init()) == NULL) { fail("init-failed", "timerqueue_init returned NULL although no allocation was refused"); return NULL; }
 		tq_check(Q);
 		return Q;
 	}
 	Q = tq_restore(s);
+	if (edge_failed) return Q;	/* the state could not be rebuilt (reported): no operation is run */
 	if (replaying) { printf("   before:\n"); tq_print(Q); }
 	switch (OPK(op)) {
-	case OP_ADD: { struct tent * e = &tpool[ntpool++]; e->t = (int)a; e->alive = 1; if ((e->handle = timerqueue_add(Q, &TIMES[a], e)) == NULL) vf_engine_error("timerqueue_add failed"); break; }
+	case OP_ADD: { struct tent * e = &tpool[ntpool++]; e->t = (int)a; e->alive = 1; if ((e->handle = timerqueue_add(Q, &TIMES[a], e)) == NULL) { e->alive = 0; fail("add-failed", "timerqueue_add to a queue of %d entries returned NULL although no allocation was refused", s[0]); } break; }
 	case OP_DELETE: tpool[a].alive = 0; timerqueue_delete(Q, tpool[a].handle); break;
 	case OP_INCREASE: tpool[a].t = (int)b; timerqueue_increase(Q, tpool[a].handle, &TIMES[b]); break;
 	case OP_GETPTR: {
@@ -480,7 +499,7 @@ tq_succ(struct es * E, const uint8_t * s, size_t len, void * ctx)
 	for (i = 0; i < nops; i++) {
 		Q = tq_edge(s, len, ops[i]);
 		if (!edge_failed) tq_emit(Q, ops[i], 0); else S.E.transitions++;
-		timerqueue_free(Q);
+		if (Q != NULL) timerqueue_free(Q);
 		if (esh_located(&S)) return;
 	}
 }
@@ -489,7 +508,7 @@ tq_initials(void)
 {
 	struct timerqueue * Q = tq_edge(NULL, 0, OPC(OP_INIT, 0, 0));
 	if (!edge_failed) tq_emit(Q, OPC(OP_INIT, 0, 0), 1);
-	timerqueue_free(Q); S.E.transitions++;
+	if (Q != NULL) timerqueue_free(Q); S.E.transitions++;
 }
 
 /* =====================  driver  ===================== */
@@ -535,8 +554,8 @@ do_replay(const char * js)
 		S.target = NULL;
 	}
 	replaying = 1;
-	if (!strcmp(cur.kind, "heap")) { struct ptrheap * H = hp_edge(st, (size_t)sl, op); printf("   after:\n"); hp_print(H); ptrheap_free(H); }
-	else { struct timerqueue * Q = tq_edge(st, (size_t)sl, op); printf("   after:\n"); tq_print(Q); timerqueue_free(Q); }
+	if (!strcmp(cur.kind, "heap")) { struct ptrheap * H = hp_edge(st, (size_t)sl, op); if (H != NULL) { printf("   after:\n"); hp_print(H); } if (H != NULL) ptrheap_free(H); }
+	else { struct timerqueue * Q = tq_edge(st, (size_t)sl, op); if (Q != NULL) { printf("   after:\n"); tq_print(Q); } if (Q != NULL) timerqueue_free(Q); }
 	printf(edge_failed ? "replay: the violation is reproduced\n" : "replay: no violation\n");
 	return edge_failed ? 1 : 0;
 }
